@@ -121,9 +121,9 @@ func (cs *gcpClientStream) RecvMsg(m interface{}) error {
 	for cs.initStreamErr == nil && cs.ClientStream == nil {
 		cs.cond.Wait()
 	}
-	if cs.initStreamErr != nil {
+	if err := cs.initStreamErr; err != nil {
 		cs.Unlock()
-		return cs.initStreamErr
+		return err
 	}
 	cs.Unlock()
 	return cs.ClientStream.RecvMsg(m)
